@@ -260,7 +260,11 @@ func (e *Engine) intrinsic(st *State, f *Frame, fn *ssa.Function, args []Value, 
 	case "runtime.Caller":
 		return ret(&TupleVal{e: []Value{BV(0, 64), &StrVal{conc: true, s: "file.go"}, c64(1), tTrue}}), true
 	case "bytes.Equal":
-		return ret(e.bytesEqual(st, args[0].(*SliceVal), args[1].(*SliceVal))), true
+		r := e.bytesEqual(st, args[0].(*SliceVal), args[1].(*SliceVal))
+		if r == nil {
+			return stDone, true
+		}
+		return ret(r), true
 	case "(*sync.Pool).Get":
 		return ret(&IfaceVal{}), true
 	case "(*sync.Pool).Put":
@@ -329,7 +333,13 @@ func (e *Engine) bytesEqual(st *State, a, b *SliceVal) *Term {
 	case lb.IsConst():
 		n = lb.k
 	default:
-		unsupp("bytes.Equal on two symbolic lengths")
+		// neither length folds to a constant: fork over its (bounded) values; the forks re-execute
+		// the call with the length known
+		v, ok := e.concretize(st, la, "bytes.Equal-len")
+		if !ok {
+			return nil
+		}
+		n = v
 	}
 	r := le
 	if n == 0 {
